@@ -1012,6 +1012,70 @@ fn judged_rerank(cx: &mut Ctx, engine: &VectorEngine, index: &HNSWIndex, mapping
     }
 }
 
+/// A query whose dimension no indexed / stored vector has (shorter, longer, or empty): no score is
+/// defined, so the search must not panic and must not return any key — an empty answer (what the
+/// exhaustive search gives) or a DimensionMismatch / EmptyVector error.
+fn judged_offdim(cx: &mut Ctx, api: &'static str, shape: &'static str, n_indexed: usize, q: &[f32], run: &dyn Fn() -> vector_engine::Result<Vec<SearchResult>>) {
+    cx.r.count(&format!("offdim:{}", api), 1);
+    cx.r.count(&format!("offdim:{}", shape), 1);
+    cx.eval(n_indexed >= 2);
+    match catch_unwind(AssertUnwindSafe(run)) {
+        Err(p) => {
+            let msg = panic_msg(&p);
+            cx.log(format!("{} with a {} query (dimension {}) -> PANIC {}", api, shape, q.len(), first_line(&msg)));
+            cx.violation(
+                format!("cached:{}:panic-on-query-of-other-dimension", api),
+                format!("{} panicked on a {} query: {} (query dimension {}, {} indexed vectors)", api, shape, msg.lines().next().unwrap_or(""), q.len(), n_indexed),
+            );
+        }
+        Ok(Err(e)) => {
+            cx.log(format!("{} with a {} query (dimension {}) -> Err({})", api, shape, q.len(), e));
+            match e {
+                vector_engine::VectorError::DimensionMismatch { .. } | vector_engine::VectorError::EmptyVector => cx.r.count("offdim:answered-with-error", 1),
+                other => cx.violation(format!("cached:{}:unexpected-error-on-query-of-other-dimension", api), format!("{} on a {} query of dimension {}: {}", api, shape, q.len(), other)),
+            }
+        }
+        Ok(Ok(res)) => {
+            cx.log(format!("{} with a {} query (dimension {}) -> {}", api, shape, q.len(), fmt_res(&res)));
+            if res.is_empty() {
+                cx.r.count("offdim:answered-empty", 1);
+            } else {
+                cx.violation(
+                    format!("cached:{}:other-dimension-returned", api),
+                    format!("{} on a {} query of dimension {} returned keys although no indexed vector has that dimension: {}", api, shape, q.len(), fmt_res(&res)),
+                );
+            }
+        }
+    }
+}
+
+/// shorter / longer / empty query for vectors of dimension `dim`
+fn gen_offdim_query(rng: &mut Rng, dim: usize) -> (Vec<f32>, &'static str) {
+    match rng.below(7) {
+        0 => (Vec::new(), "empty"),
+        1 | 2 | 3 if dim > 1 => {
+            let d = 1 + rng.below(dim - 1);
+            (gen_query(rng, d, &[]), "shorter")
+        }
+        _ => {
+            let d = dim + 1 + rng.below(9);
+            (gen_query(rng, d, &[]), "longer")
+        }
+    }
+}
+
+/// the explicit-index APIs with queries of another dimension
+fn offdim_on_explicit_index(cx: &mut Ctx, rng: &mut Rng, engine: &VectorEngine, index: &HNSWIndex, mapping: &[String], dim: usize, rounds: usize) {
+    for _ in 0..rounds {
+        let (q, shape) = gen_offdim_query(rng, dim);
+        let k = 1 + rng.below(12);
+        judged_offdim(cx, "search_with_hnsw", shape, mapping.len(), &q, &|| engine.search_with_hnsw(index, mapping, &q, k));
+        let xm = gen_xm(rng);
+        let em = xm.engine();
+        judged_offdim(cx, "search_with_hnsw_and_metric", shape, mapping.len(), &q, &|| engine.search_with_hnsw_and_metric(index, mapping, &q, k, &em));
+    }
+}
+
 fn check_readback(cx: &mut Ctx, api: &'static str, key: &str, got: vector_engine::Result<Vec<f32>>, want: &[f32]) {
     cx.r.count(&format!("readback:{}", api), 1);
     match got {
@@ -1177,6 +1241,7 @@ fn run_program(case_seed: u64, r: &mut Report, verbose: bool, scratch_base: &std
             9,  // 19 search_in_collection
             6,  // 20 search_filtered_in_collection
             3,  // 21 get_from_collection
+            2,  // 22 empty query on the searches that may consult a cached index
         ]);
         match op {
             0 | 1 => {
@@ -1392,6 +1457,9 @@ fn run_program(case_seed: u64, r: &mut Report, verbose: bool, scratch_base: &std
                             let xm = gen_xm(&mut rng);
                             let k2 = pick_k(&mut rng, def.data.len());
                             judged_rerank(&mut cx, &engine, &index, &mapping, &def, &q, k2, &xm);
+                        }
+                        if !mapping.is_empty() && rng.chance(1, 3) {
+                            offdim_on_explicit_index(&mut cx, &mut rng, &engine, &index, &mapping, qd, 1);
                         }
                     }
                 }
@@ -1614,6 +1682,18 @@ fn run_program(case_seed: u64, r: &mut Report, verbose: bool, scratch_base: &std
                     engine.search_filtered_in_collection(c, &q, k, &cond, fc.clone())
                 });
             }
+            22 => {
+                let q: Vec<f32> = Vec::new();
+                let k = 1 + rng.below(10);
+                let c = *rng.pick(&coll_names);
+                let f = gen_filter(&mut rng, 0).cond();
+                match rng.below(4) {
+                    0 => judged_offdim(&mut cx, "search_similar", "empty", def.data.len(), &q, &|| engine.search_similar(&q, k)),
+                    1 => judged_offdim(&mut cx, "search_similar_filtered", "empty", def.data.len(), &q, &|| engine.search_similar_filtered(&q, k, &f, Some(FilteredSearchConfig::post_filter()))),
+                    2 => judged_offdim(&mut cx, "search_in_collection", "empty", colls[c].space.data.len(), &q, &|| engine.search_in_collection(c, &q, k)),
+                    _ => judged_offdim(&mut cx, "search_filtered_in_collection", "empty", colls[c].space.data.len(), &q, &|| engine.search_filtered_in_collection(c, &q, k, &f, Some(FilteredSearchConfig::post_filter()))),
+                }
+            }
             _ => {
                 let c = *rng.pick(&coll_names);
                 let n = &colls[c];
@@ -1812,6 +1892,9 @@ fn run_rerank(case_seed: u64, r: &mut Report, verbose: bool) {
             judged_rerank(&mut cx, &engine, &index, &mapping, &def, &q, k, xm);
         }
     }
+    // queries of another dimension on the same index
+    cx.step = step;
+    offdim_on_explicit_index(&mut cx, &mut rng, &engine, &index, &mapping, dim, 2);
     // the stored vectors still read back as written
     for (k, e) in &def.data {
         let got = engine.get_embedding(k);
@@ -2078,6 +2161,7 @@ fn main() {
             "the cached-index oracle is applied only while the model saw no vector change since the build; an exact exhaustive answer also satisfies it, so the engine is never required to use the index".into(),
             "search_in_collection / search_filtered_in_collection are judged under the collection's configured metric; collection indexes are built by the program with that metric from vectors read through the engine".into(),
             "quantized HNSW storage and IVF are not judged".into(),
+            "a query whose dimension differs from the indexed vectors' (shorter, longer, empty) has no defined score: on every index-assisted path it must not panic and must not return a key; an empty answer (the exhaustive search's answer) and a DimensionMismatch / EmptyVector error are both accepted".into(),
             "search_with_hnsw_and_metric (index just built) is judged with the cached-index oracle under the f64 reference of the chosen extended metric: raw value as documented on tensor_store::DistanceMetric / SparseVector (cosine, acos(cosine) for angular and geodesic, Jaccard and overlap on non-zero positions, weighted Jaccard, L2, L1, composite = weighted mean of (cos+1)/2, Jaccard and 1/(1+L2)) and the documented to_similarity ((cos+1)/2, 1 - angle/pi, 1/(1+distance), identity); tolerance 1e-4 relative + 1e-6, for the angular metrics the acos-amplified f32 rounding of the cosine (3e-7) instead".into(),
             "an index handed to cache_hnsw_index for a named collection maps node ids to storage keys (the convention of vector_engine's own test) and is withdrawn by the program when the collection's configuration is replaced (create_collection / load_index)".into(),
             "hostile key names (keys starting with \"emb:\", empty key, non-ASCII) are used in 1 of 8 programs".into(),
@@ -2101,6 +2185,11 @@ fn main() {
                 ("index_builds_ok", 100),
                 ("collection_index_cached", 30),
                 ("rerank_programs", 100),
+                ("offdim:search_with_hnsw", 500),
+                ("offdim:search_with_hnsw_and_metric", 500),
+                ("offdim:shorter", 300),
+                ("offdim:longer", 300),
+                ("offdim:empty", 100),
                 ("rerank:cosine", 200),
                 ("rerank:angular", 200),
                 ("rerank:geodesic", 200),
